@@ -485,3 +485,294 @@ Section Inv.
     - left. simpl in Hlen. lia.
   Qed.
 End Inv.
+
+(* ------------------------------------------------------------------ the initial map = the mention graph *)
+Lemma medge_minsert k v res x y :
+  medge (minsert k v res) x y <-> (x = k /\ In y v) \/ (x <> k /\ medge res x y).
+Proof.
+  unfold medge. split.
+  - intros [s [Hs Hy]]. rewrite mlookup_minsert in Hs. destruct (N.eqb x k) eqn:E.
+    + apply N.eqb_eq in E. injection Hs as Hs. subst. left. split; [reflexivity | exact Hy].
+    + apply N.eqb_neq in E. right. split; [exact E|]. exists s. split; assumption.
+  - intros [[Hx Hy]|[Hx [s [Hs Hy]]]].
+    + exists v. rewrite mlookup_minsert. subst x. rewrite N.eqb_refl. split; [reflexivity | exact Hy].
+    + exists s. rewrite mlookup_minsert. apply N.eqb_neq in Hx. rewrite Hx. split; assumption.
+Qed.
+
+Lemma present_minsert k v res x : present x (minsert k v res) <-> x = k \/ present x res.
+Proof.
+  unfold present. rewrite mlookup_minsert. destruct (N.eqb x k) eqn:E.
+  - apply N.eqb_eq in E. split; [intros _; left; exact E | intros _; exists v; reflexivity].
+  - apply N.eqb_neq in E. split; [intros H; right; exact H | intros [H|H]; [contradiction | exact H]].
+Qed.
+
+Lemma entry_medge res k y :
+  In y (match mlookup k res with Some s => s | None => [] end) <-> medge res k y.
+Proof.
+  unfold medge. destruct (mlookup k res) as [s|].
+  - split; [intros H; exists s; split; [reflexivity | exact H] | intros [s' [Hs Hy]]; injection Hs as Hs; subst; exact Hy].
+  - split; [intros [] | intros [s' [Hs _]]; discriminate].
+Qed.
+
+Lemma mention_edge_cons ws cm r rs x y :
+  mention_edge ws cm (r :: rs) x y <-> (b_name r = x /\ In y (used_rule ws cm r)) \/ mention_edge ws cm rs x y.
+Proof.
+  unfold mention_edge. split.
+  - intros [r0 [[Hr|Hr] [Hn Hy]]].
+    + subst r0. left. split; assumption.
+    + right. exists r0. repeat split; assumption.
+  - intros [[Hn Hy]|[r0 [Hr [Hn Hy]]]].
+    + exists r. split; [left; reflexivity|]. split; assumption.
+    + exists r0. split; [right; exact Hr|]. split; assumption.
+Qed.
+
+Lemma init_spec ws cm rules : forall res x,
+  (forall y, medge (init_map ws cm rules res) x y <-> medge res x y \/ mention_edge ws cm rules x y) /\
+  (present x (init_map ws cm rules res) <-> present x res \/ In x (map b_name rules)) /\
+  ((forall k v, mlookup k res = Some v -> NoDup v) ->
+   forall k v, mlookup k (init_map ws cm rules res) = Some v -> NoDup v).
+Proof.
+  induction rules as [|r rs IH]; intros res x; cbn [init_map map].
+  - split; [|split].
+    + intros y. split; [intros H; left; exact H | intros [H|[r [[] _]]]; exact H].
+    + split; [intros H; left; exact H | intros [H|[]]; exact H].
+    + intros H. exact H.
+  - destruct (IH (minsert (b_name r)
+                  (nunion (match mlookup (b_name r) res with Some s => s | None => [] end) (used_rule ws cm r)) res) x)
+      as [IH1 [IH2 IH3]].
+    split; [|split].
+    + intros y. rewrite IH1, medge_minsert, mention_edge_cons, nunion_In, entry_medge.
+      destruct (N.eq_dec x (b_name r)) as [Hx|Hx].
+      * subst x. split.
+        -- intros [[[_ [H|H]]|[Hne _]]|H].
+           ++ left. exact H.
+           ++ right. left. split; [reflexivity | exact H].
+           ++ exfalso. apply Hne. reflexivity.
+           ++ right. right. exact H.
+        -- intros [H|[[_ H]|H]].
+           ++ left. left. split; [reflexivity | left; exact H].
+           ++ left. left. split; [reflexivity | right; exact H].
+           ++ right. exact H.
+      * split.
+        -- intros [[[Heq _]|[_ H]]|H].
+           ++ contradiction.
+           ++ left. exact H.
+           ++ right. right. exact H.
+        -- intros [H|[[Heq _]|H]].
+           ++ left. right. split; assumption.
+           ++ exfalso. apply Hx. symmetry. exact Heq.
+           ++ right. exact H.
+    + rewrite IH2, present_minsert. simpl. split.
+      * intros [[H|H]|H]; [right; left; symmetry; exact H | left; exact H | right; right; exact H].
+      * intros [H|[H|H]]; [left; right; exact H | left; left; symmetry; exact H | right; exact H].
+    + intros Hnd. apply IH3. intros k v Hk. rewrite mlookup_minsert in Hk.
+      destruct (N.eqb k (b_name r)); [|apply (Hnd k v Hk)].
+      injection Hk as Hk. subst v. apply nunion_NoDup.
+      destruct (mlookup (b_name r) res) as [s|] eqn:Hs; [apply (Hnd _ _ Hs) | constructor].
+Qed.
+
+Lemma init_edge ws cm rules x y :
+  medge (init_map ws cm rules []) x y <-> mention_edge ws cm rules x y.
+Proof.
+  destruct (init_spec ws cm rules [] x) as [H _]. rewrite H. split; [|intros H'; right; exact H'].
+  intros [[s [Hs _]]|H']; [discriminate | exact H'].
+Qed.
+
+Lemma init_present ws cm rules x :
+  present x (init_map ws cm rules []) <-> In x (map b_name rules).
+Proof.
+  destruct (init_spec ws cm rules [] x) as [_ [H _]]. rewrite H. split; [|intros H'; right; exact H'].
+  intros [[s Hs]|H']; [discriminate | exact H'].
+Qed.
+
+Lemma chain_init_iff ws cm rules x l y :
+  chain (medge (init_map ws cm rules [])) x l y <-> chain (mention_edge ws cm rules) x l y.
+Proof.
+  split; apply chain_mono; intros a b; apply init_edge.
+Qed.
+
+(* ------------------------------------------------------------------ the final state *)
+Lemma final_inv ws cm rules :
+  Basic (init_map ws cm rules []) (collect_reachability ws cm rules) /\
+  CoverP (init_map ws cm rules []) (length rules) [] (collect_reachability ws cm rules).
+Proof.
+  unfold collect_reachability, collect_reachability_full.
+  destruct (reach_loop (length rules) (map b_name rules) (init_map ws cm rules [])) as [res b] eqn:H.
+  apply (loop_inv (init_map ws cm rules []) (map b_name rules) (length rules) 0 _ res b) in H.
+  - exact H.
+  - intros x Hx. exact (proj1 (init_present ws cm rules x) Hx).
+  - split; [|split; [|split]].
+    + intros x Hx. exact Hx.
+    + intros x s y Hs Hy. exists []. simpl. exists s. split; assumption.
+    + intros x Hx _. exact Hx.
+    + destruct (init_spec ws cm rules [] 0%N) as [_ [_ Hnd]]. apply Hnd. intros k v Hk. discriminate.
+  - split.
+    + intros x l y s Hch Hs _ [Hlen|[_ []]]. destruct l as [|z l]; [|simpl in Hlen; lia].
+      simpl in Hch. destruct Hch as [s' [Hs' Hy]]. rewrite Hs in Hs'. injection Hs' as Hs'. subst s'. exact Hy.
+    + intros x s [[]|Hle] _. lia.
+Qed.
+
+Lemma not_boxed_present ws cm rules z :
+  In z (not_boxed ws cm rules) <-> present z (collect_reachability ws cm rules).
+Proof. unfold not_boxed. apply mkeys_present. Qed.
+
+Lemma is_boxed_false ws cm rules z :
+  is_boxed true ws cm rules z = false <-> In z (not_boxed ws cm rules).
+Proof.
+  unfold is_boxed. simpl. rewrite negb_false_iff. apply nmem_In.
+Qed.
+
+Lemma final_keys ws cm rules x :
+  present x (collect_reachability ws cm rules) -> In x (map b_name rules).
+Proof.
+  intros Hx. destruct (final_inv ws cm rules) as [[B1 _] _]. exact (proj1 (init_present ws cm rules x) (B1 x Hx)).
+Qed.
+
+(* (a) what holds of every entry that remains *)
+Lemma boxing_invariant : forall ws cm rules x s,
+  mlookup x (collect_reachability ws cm rules) = Some s ->
+  In x (map b_name rules) /\ NoDup s /\ ~ In x s /\
+  (forall y, In y s -> exists l, chain (mention_edge ws cm rules) x l y) /\
+  (forall l y, chain (mention_edge ws cm rules) x l y ->
+     (forall z, In z l -> In z (not_boxed ws cm rules)) -> In y s).
+Proof.
+  intros ws cm rules x s Hs. destruct (final_inv ws cm rules) as [[B1 [B2 [B3 B4]]] [C1 C2]].
+  assert (Hx : In x (map b_name rules)) by (apply (final_keys ws cm rules x); exists s; exact Hs).
+  assert (Hn : 1 <= length rules).
+  { rewrite <- (map_length b_name). destruct (map b_name rules); [destruct Hx | simpl; lia]. }
+  split; [exact Hx|]. split; [apply (B4 x s Hs)|]. split; [apply (C2 x s); [right; exact Hn | exact Hs]|]. split.
+  - intros y Hy. destruct (B2 x s y Hs Hy) as [l Hl]. exists l. apply (proj1 (chain_init_iff ws cm rules x l y)). exact Hl.
+  - intros l y Hch Hpres. apply (proj2 (chain_init_iff ws cm rules x l y)) in Hch.
+    destruct (chain_shorten _ l x y Hch) as [l' [Hch' [Hnd Hincl]]].
+    assert (Hlen : length (x :: l') <= length (map b_name rules)).
+    { apply NoDup_incl_length; [exact Hnd|]. intros z [Hz|Hz]; [subst z; exact Hx|].
+      apply (final_keys ws cm rules z). apply (proj1 (not_boxed_present ws cm rules z)). apply Hpres, Hincl, Hz. }
+    rewrite map_length in Hlen. apply (C1 x l' y s Hch' Hs).
+    + intros z Hz. apply (proj1 (not_boxed_present ws cm rules z)). apply Hpres, Hincl, Hz.
+    + left. simpl in Hlen. lia.
+Qed.
+
+(* (b) no cycle of the mention graph runs through unboxed rules only -- for every rule list, i.e. the cap of
+   `rules.len()` rounds never stops the analysis too early *)
+Lemma boxing_sound : forall ws cm rules x l,
+  (forall z, In z (x :: l) -> is_boxed true ws cm rules z = false) ->
+  ~ chain (mention_edge ws cm rules) x l x.
+Proof.
+  intros ws cm rules x l Hunb Hch. destruct (final_inv ws cm rules) as [_ HC].
+  rewrite <- (map_length b_name) in HC.
+  apply (cover_acyclic (init_map ws cm rules []) (map b_name rules) (collect_reachability ws cm rules)
+           (final_keys ws cm rules) HC x l).
+  - intros z Hz. apply (proj1 (not_boxed_present ws cm rules z)). apply (proj1 (is_boxed_false ws cm rules z)). apply Hunb, Hz.
+  - apply (proj2 (chain_init_iff ws cm rules x l x)). exact Hch.
+Qed.
+
+(* the same, read on the list of flags the generator computes *)
+Lemma boxing_sound_flags : forall ws cm rules x l,
+  (forall z, In z (x :: l) -> exists r, In r rules /\ b_name r = z /\
+        In (r, false) (combine rules (boxed_flags true ws cm rules))) ->
+  ~ chain (mention_edge ws cm rules) x l x.
+Proof.
+  intros ws cm rules x l H. apply boxing_sound. intros z Hz. destruct (H z Hz) as [r [_ [Hn Hc]]].
+  unfold boxed_flags in Hc. subst z.
+  assert (G : forall (f : brule -> bool) rs, In (r, false) (combine rs (map f rs)) -> f r = false).
+  { intros f rs. induction rs as [|a rs IH]; simpl; [intros []|]. intros [He|Hi]; [|apply IH, Hi].
+    injection He as H1 H2. subst a. exact H2. }
+  apply (G _ _ Hc).
+Qed.
+
+(* (c) a rule on no cycle of the FULL mention graph is never boxed *)
+Lemma boxing_minimal : forall ws cm rules r,
+  In r rules ->
+  (forall l, ~ chain (mention_edge ws cm rules) (b_name r) l (b_name r)) ->
+  is_boxed true ws cm rules (b_name r) = false.
+Proof.
+  intros ws cm rules r Hr Hno. apply (proj2 (is_boxed_false ws cm rules (b_name r))). apply (proj2 (not_boxed_present ws cm rules (b_name r))).
+  destruct (final_inv ws cm rules) as [[_ [_ [B3 _]]] _]. apply B3.
+  - apply (proj2 (init_present ws cm rules (b_name r))). apply in_map. exact Hr.
+  - intros [l Hl]. apply (Hno l). apply (proj1 (chain_init_iff ws cm rules _ l _)). exact Hl.
+Qed.
+
+(* without the option every rule is boxed *)
+Lemma boxing_off : forall ws cm rules, boxed_flags false ws cm rules = map (fun _ => true) rules.
+Proof. intros. unfold boxed_flags, is_boxed. simpl. reflexivity. Qed.
+
+(* ------------------------------------------------------------------ non-vacuity *)
+(* graph.rs test `inter_reference`: expected BTreeMap::from([("b", BTreeSet::from(["a", "c"]))]);
+   a = 3, b = 6, c = 9 under [code_rule] *)
+Example inter_reference_map :
+  collect_reachability None None inter_reference_rules = [(6, [9; 3])]%N.
+Proof. vm_compute. reflexivity. Qed.
+
+Example inter_reference_flags :
+  boxed_flags true None None inter_reference_rules = [true; false; true] /\
+  boxed_flags false None None inter_reference_rules = [true; true; true] /\
+  last_round_made_no_update None None inter_reference_rules = true.
+Proof. vm_compute. repeat split. Qed.
+
+(* the premise of boxing_sound is satisfiable with a non-trivial graph, and the cycle a -> b -> c -> a exists *)
+Example inter_reference_cycle :
+  chain (mention_edge None None inter_reference_rules) 3%N [6%N; 9%N] 3%N.
+Proof.
+  simpl. repeat split.
+  - exists (nth 0 inter_reference_rules (mk_brule 0 KNormal [])). simpl. repeat split; auto.
+  - exists (nth 1 inter_reference_rules (mk_brule 0 KNormal [])). simpl. repeat split; auto.
+  - exists (nth 2 inter_reference_rules (mk_brule 0 KNormal [])). simpl. repeat split; auto.
+Qed.
+
+(* the analysis is not minimal: boxing `a` alone would break every cycle of inter_reference (no cycle avoids a),
+   yet `c` is boxed too *)
+Lemma inter_reference_edges x y :
+  mention_edge None None inter_reference_rules x y -> In (x, y) [(3, 6); (6, 9); (9, 3)]%N.
+Proof.
+  intros [r [Hr [Hn Hy]]]. simpl in Hr.
+  destruct Hr as [Hr|[Hr|[Hr|[]]]]; subst r; vm_compute in Hn; subst x; vm_compute in Hy.
+  - destruct Hy as [Hy|[]]. subst y. left. reflexivity.
+  - destruct Hy as [Hy|[]]. subst y. right. left. reflexivity.
+  - destruct Hy as [Hy|[Hy|[]]]; subst y; right; right; left; reflexivity.
+Qed.
+
+Example inter_reference_not_minimal :
+  is_boxed true None None inter_reference_rules 9%N = true /\
+  (forall x l, (forall z, In z (x :: l) -> z <> 3%N) ->
+     ~ chain (mention_edge None None inter_reference_rules) x l x).
+Proof.
+  split; [vm_compute; reflexivity|]. intros x l Hno Hch.
+  assert (Hx : x <> 3%N) by (apply Hno; left; reflexivity).
+  destruct l as [|z l].
+  - apply inter_reference_edges in Hch. simpl in Hch.
+    destruct Hch as [H|[H|[H|[]]]]; congruence.
+  - destruct Hch as [H1 H2]. assert (Hz : z <> 3%N) by (apply Hno; right; left; reflexivity).
+    apply inter_reference_edges in H1. simpl in H1.
+    destruct H1 as [H|[H|[H|[]]]]; try congruence.
+    assert (z = 9%N) by congruence. subst z.
+    destruct l as [|w l].
+    + apply inter_reference_edges in H2. simpl in H2.
+      destruct H2 as [H'|[H'|[H'|[]]]]; congruence.
+    + destruct H2 as [H2 _]. assert (Hw : w <> 3%N) by (apply Hno; right; right; left; reflexivity).
+      apply inter_reference_edges in H2. simpl in H2.
+      destruct H2 as [H'|[H'|[H'|[]]]]; congruence.
+Qed.
+
+(* implicit WHITESPACE: a NORMAL rule WHITESPACE mentions itself (it is skipped inside itself) and is boxed, a
+   silent one is not; rules 1 = WHITESPACE = { " " }, 2 = a = { "x" ~ "y" } *)
+Example implicit_ws_normal :
+  boxed_flags true (Some (code_rule 1)) None
+    [mk_brule (code_rule 1) KNormal []; mk_brule (code_rule 2) KNormal []] = [true; false].
+Proof. vm_compute. reflexivity. Qed.
+
+Example implicit_ws_silent :
+  boxed_flags true (Some (code_rule 1)) None
+    [mk_brule (code_rule 1) KSilent []; mk_brule (code_rule 2) KNormal []] = [false; false].
+Proof. vm_compute. reflexivity. Qed.
+
+(* implicit mentions are added for NORMAL rules only:  WHITESPACE = _{ " " ~ a? }  with  a = { "x" }  is a cycle for
+   the analysis (WHITESPACE -> a -> WHITESPACE, the first rule in order is boxed), with  a = _{ "x" }  /  @{ "x" }  it
+   is not *)
+Example implicit_only_normal :
+  boxed_flags true (Some (code_rule 1)) None
+    [mk_brule (code_rule 1) KSilent [code_rule 2]; mk_brule (code_rule 2) KNormal []] = [true; false] /\
+  boxed_flags true (Some (code_rule 1)) None
+    [mk_brule (code_rule 1) KSilent [code_rule 2]; mk_brule (code_rule 2) KSilent []] = [false; false] /\
+  boxed_flags true (Some (code_rule 1)) None
+    [mk_brule (code_rule 1) KSilent [code_rule 2]; mk_brule (code_rule 2) KAtomic []] = [false; false].
+Proof. vm_compute. repeat split; reflexivity. Qed.
